@@ -55,6 +55,18 @@ CHECKS = {
     "C16": ("model-based Hypothesis test of the dialogue + covering set of every legal value",
             "Answer scripts (retries, junk, empty, case variants, truncation) are fed to the builder through a counting fake stdin; an independent dialogue model must consume the same number of answers and produce the same vector; the class must accept it; EOF surfaces as EOFError.",
             "Asking order taken from the returned vector (any order accepted); prompts are not asserted.", "4/C16"),
+    "C17": ("Hypothesis-generated command lines, in-process main() with patched argv/stdin/stdout + real subprocess sample; API differential and dialogue model as oracle",
+            "For generated flag sets, vectors (valid, other-version, mutants, arbitrary text) and stdin scripts (complete / truncated): exit status 0, no exception or traceback, report lines parsed by label equal the API's scores, ratings, cleaned and RH vector, -j document equals as_json(sort=True, minimal=True) incl. key order, invalid vector -> the library's message, EOF -> clean end.",
+            "Several version flags: any selected version accepted; empty VECTOR read as absent; layout, banners and v2 ratings not asserted.", "4/C17"),
+    "C18": ("Hypothesis RuleBasedStateMachine over accessor calls and dict mutations, twin-object oracle",
+            "Sequences of accessor calls (all public accessors, every as_json option pair), ==/hash against a twin and mutations of returned dicts; every result must equal what a twin object returned when that accessor was its first call; nothing may raise.",
+            "Only observable results compared; sequences up to 30 (quick) / 50 (thorough) steps.", "4/C18"),
+    "C19": ("Hypothesis stateful histories vs a fresh interpreter process + global-state snapshots; deterministic settrace thread scheduler with drawn schedules; PYTHONHASHSEED sweep; decimal-context sweep vs exact oracles",
+            "Histories of API/CLI/interactive calls with a probe set and a deep snapshot of cvss.* module state, decimal context, sys.path and warnings.filters after every step, everything recomputed by a fresh process in another order; 2-4 threads under harness-owned line-level schedules plus a free-running stress; probe corpus under 5 hash seeds; 40 ambient decimal contexts (prec 28..200 x 8 rounding modes) against the exact oracles.",
+            "Schedules at line granularity in cvss/*.py frames; decimal sticky flags excluded; lazy stdlib imports warmed up before the first snapshot.", "4/C19"),
+    "C20": ("differential execution of a Hypothesis-generated corpus on all 9 installed interpreters + /venv via a py2/py3-common probe",
+            "Every corpus item (constructor inputs valid/invalid incl. Unicode, RH strings, texts, interactive scripts, command lines) is executed under CPython 2.7.18, 3.6.15 ... 3.13.0; import success, accept/reject + error class and message, scores, severities, vectors, JSON content and sorted key order, extraction results, builder results and CLI output must equal the 3.12 reference.",
+            "Covers the ten installed interpreters only; argv restricted to printable ASCII; hash() values and unsorted-dict order are not observables.", "4/C20"),
 }
 
 PENDING_REASON = "check not built yet in this session (planned, see DESIGN.md section 4); not claimed until its machinery is committed"
